@@ -20,9 +20,10 @@ func init() {
 }
 
 // k1: runtime correspondence. For each term, several op histories. Writes
-//   req.txt  : (k1m <cterm> <ops> <ops> ...)      one line per term
-//   go.txt   : the real runtime's rendering, histories joined by " || "
-//   stats.json
+//
+//	req.txt  : (k1m <cterm> <ops> <ops> ...)      one line per term
+//	go.txt   : the real runtime's rendering, histories joined by " || "
+//	stats.json
 func k1(args []string) {
 	fs := flag.NewFlagSet("k1", flag.ExitOnError)
 	out := fs.String("out", "", "output directory")
